@@ -71,9 +71,16 @@ def run(ctx):
     ctx.trusted += ["scipy.sparse.linalg.spsolve (its output is checked against the model's equations, not modelled)",
                     "harness-side reference for boundary data (multilinear, periodic) and piecewise-linear material tables",
                     "hypothesis H1 of the theorems: dr < 2*r_inner (inner half-node radius positive); generated geometries satisfy it"]
+    from harness import translators as _tr
+    ctx.trusted += ["translator harness/translators/thermalstencil.py (Python ast -> Gallina; numpy slicing / edge padding / C-order flattening and "
+                    "scipy.sparse.diags / coo_matrix placement read as index shifts)"]
+    _tr.import_all()
+    ctx.gen("ThermalStencil", _tr.REGISTRY["ThermalStencil"])
     ctx.prove("C02")
+    ctx.prove("C02_stencil")
     if ctx.tier == "thorough":
         ctx.coqchk("C02")
+        ctx.coqchk("C02_stencil")
     cfgs = gen(ctx)
     results = tc.run_configs(cfgs)
     terms, term_info = [], []
